@@ -11,7 +11,8 @@ META = {
                    'operator== family; each arm is selected by the folded numeric value of the kType constants (not by label '
                    'spelling), then its effect is compared with the expected restore/save action; operator== of each value type is '
                    'evaluated from its path summary on every 0/1 assignment of the fields of both operands and every pair of kinds: '
-                   'true exactly when the kinds agree and the fields of that kind agree.',
+                   'true exactly when the kinds agree and the fields of that kind agree; manual zones (a standard and a DST offset) are put '
+                   'through getUtcOffset / getDeltaOffset / getOffsetDateTime / printShortTo by typed interpretation of the real bodies.',
     'decided': 'every TimeZoneData type value restores through the arm with the right effect; every TimeZone kind saves to the right '
                'type and payload; operator== of TimeZone, TimeZoneData, ZonedDateTime, OffsetDateTime, LocalDateTime, LocalDate, '
                'LocalTime, TimeOffset compares the discriminator first and every field of the active arm, same field on both sides; '
@@ -86,8 +87,8 @@ def run(cfg):
         R.instance('R5', fam + 'kType*', 'src/ace_time/TimeZone.h' if fam == 'TZ.' else 'src/ace_time/TimeZoneData.h', str(vals))
         if len(set(vals.values())) != len(vals):
             R.violation('R5', fam + 'kType*', '?', 'kind constants collide: %r' % vals)
-    restore_rule(R, lib, consts)
-    save_rule(R, lib, consts)
+    from . import rules_C16b
+    rules_C16b.roundtrip_rule(R, lib, consts)
     equality_rules(R, lib, consts)
     manual_rule(R, lib, consts)
     return R
